@@ -147,3 +147,63 @@ func TestDeadlock(t *testing.T) {
 	}
 	t.Logf("deadlock in %d/100", found)
 }
+
+// A bounded queue on sync.Cond, a sync.Once and a sync.Locker, all through the simulator's rules.
+func condWorkload(s *Sim) {
+	var mu sync.Mutex
+	cond := sync.NewCond(&mu)
+	var once sync.Once
+	var l sync.Locker = &mu
+	inits := 0
+	var q []int
+	var wg sync.WaitGroup
+	got := 0
+	for i := 0; i < 3; i++ {
+		wg.Add(1)
+		GoNamed("producer", func() {
+			defer wg.Done()
+			OnceDo(&once, func() { Yield(20); inits++ }, 21)
+			for j := 0; j < 4; j++ {
+				LockerLock(l, 22)
+				for len(q) >= 2 {
+					CondWait(cond, 23)
+				}
+				q = append(q, i*10+j)
+				CondBroadcast(cond, 24)
+				LockerUnlock(l, 25)
+			}
+		})
+	}
+	wg.Add(1)
+	GoNamed("consumer", func() {
+		defer wg.Done()
+		for got < 12 {
+			MutexLock(&mu, 26)
+			for len(q) == 0 {
+				CondWait(cond, 27)
+			}
+			q = q[1:]
+			got++
+			CondBroadcast(cond, 28)
+			MutexUnlock(&mu, 29)
+		}
+	})
+	wg.Wait()
+	Resume(3)
+	if got != 12 || inits != 1 || len(q) != 0 {
+		s.Fail("cond", "got=%d inits=%d queue=%d", got, inits, len(q))
+	}
+}
+
+func TestCondOnceLocker(t *testing.T) {
+	for seed := uint64(1); seed <= 200; seed++ {
+		a := Run(t, NewTape(seed), Config{PreemptPermille: 400}, condWorkload)
+		b := Run(t, ReplayTape(a.Tape.Rec), Config{PreemptPermille: 400}, condWorkload)
+		if a.Failed() {
+			t.Fatalf("seed %d: %v", seed, a.Failures)
+		}
+		if a.LogHash() != b.LogHash() || a.SchedSig() != b.SchedSig() {
+			t.Fatalf("seed %d: replay differs", seed)
+		}
+	}
+}
